@@ -806,6 +806,13 @@ impl<T: Qcow2IoOps> Qcow2Dev<T> {
 
     /// Write data in `buf` to the virtual `offset` of this qcow2 image
     pub async fn write_at(&self, buf: &[u8], offset: u64) -> Qcow2Result<()> {
+        // A write into an already mapped cluster looks the mapping up and
+        // writes without any lock held. discard() waits on this gate before
+        // it releases what it unmapped, otherwise the cluster could be
+        // handed to another guest cluster while this write still goes to it.
+        // (Not in __write_at(): COW re-enters that, and a nested shared
+        // acquisition behind a waiting discard would block for good.)
+        let _gate = self.data_io_gate.read().await;
         self.__write_at(buf, offset).await
     }
 }
